@@ -173,6 +173,7 @@ def _job_traversal(job):
                 continue
             status, hdr, body = r
             part.outcome((status, body[:7]))
+            part.state((follow, show_index, status, body[:24]))
             if status in (200, 206):
                 if body.startswith(b"OUTSIDE:"):
                     via_link = follow and re.search(r"link_(out|dir|abs)", t)
@@ -291,6 +292,7 @@ def judge_range(part, case, r, data, spec, cname, method):
     size = len(data)
     tag = f"{method} size={size} Range={spec} {cname}"
     part.outcome((status, cname, method, spec is not None and range_ref(spec, size)[0]))
+    part.state((size, status, hdr.get("content-range"), cname, method))
 
     def V(sig, msg):
         part.violation(f"C15:range:{sig}", f"{tag}: {msg}", case)
